@@ -192,6 +192,8 @@ def gen_history(run_seed: int, cfg: dict) -> dict:
         elif k == "REWRITE":
             which = r.choice(["all", "some", "some", "lib"])
             op = {"op": "REWRITE", "e": r.choice(handles), "which": which, "kind": r.choice(["func", "func", "source"])}
+            if r.random() < 0.3:
+                op["backend"] = "jax"  # source for the other backend (jax itself is not installed: 'func' then fails loudly, identically everywhere)
             if which == "some":
                 op["fracs"] = [round(r.random(), 6) for _ in range(r.randint(1, 25))]
             if r.random() < p_abort:
@@ -213,7 +215,7 @@ def gen_history(run_seed: int, cfg: dict) -> dict:
                 op.update(stride=stride, offset=r.randrange(stride), max_aborts=8, date=hdate.get(op["e"], r.choice(dates)))
             ops.append(op)
         elif k == "BADDATA":
-            ops.append({"op": "BADDATA", "e": r.choice(handles), "pop": r.choice(sorted(pops)), "fault": r.choice(["dup_pid", "self_ptr", "drop_col", "frac_int", "hh_var", "obj_dtype"]), "row": r.randrange(64), "form": r.choice(["frame", "dict"])})
+            ops.append({"op": "BADDATA", "e": r.choice(handles), "pop": r.choice(sorted(pops)), "fault": r.choice(["dup_pid", "self_ptr", "drop_col", "frac_int", "hh_var", "obj_dtype", "bigint_float", "bigint_float"]), "row": r.randrange(64), "form": r.choice(["frame", "dict"])})
     # make sure something is compared after something state-changing
     if not any(o["op"] in ("COMPUTE", "REPEAT") for o in ops[1:]):
         ops.append(mk_compute())
@@ -222,6 +224,8 @@ def gen_history(run_seed: int, cfg: dict) -> dict:
         if o.get("abort") is None:
             o.pop("abort", None)
     env = {"rglob_seed": r.randrange(1 << 30) if (faults and r.random() < 0.5) else None, "style": style}
+    if r.random() < 0.12:
+        env["np_strict"] = True  # the caller runs numpy in strict mode: numpy.seterr(divide/invalid/over = "raise")
     return {"env": env, "pops": pops, "ops": ops}
 
 
@@ -389,6 +393,10 @@ def apply_data_fault(data, fault: str, row: int):
             df.loc[i, "p_id_ehepartner"] = df["p_id"].iloc[i]
     elif fault == "obj_dtype":
         df["alter"] = df["alter"].astype(object)
+    elif fault == "bigint_float":
+        x = np.zeros(n, dtype=np.int64)
+        x[i] = 2**53 + 1
+        df["vermögen_bedürft"] = x
     else:
         df = df.drop(columns=["p_id"])
     if is_dict:
@@ -454,10 +462,11 @@ def do_rewrite(op, functions: dict) -> dict:
     for name in rewrite_targets(op, functions):
         f = userlib.soli_zero if name == "<lib>" else functions[name]
         try:
+            backend = op.get("backend", "numpy")
             if op["kind"] == "source":
-                out[name] = "src:" + digest(make_vectorizable_source(f, "numpy"))
+                out[name] = "src:" + digest(make_vectorizable_source(f, backend))
             else:
-                g = make_vectorizable(f, "numpy")
+                g = make_vectorizable(f, backend)
                 out[name] = "fn:" + code_hash(g.__code__)
         except Exception as e:  # noqa: BLE001
             out[name] = "exc:" + type(e).__name__
@@ -555,6 +564,10 @@ def run_session(history: dict, opts: dict | None = None) -> dict:
 
     opts = opts or {}
     warnings.simplefilter("ignore")
+    if history["env"].get("np_strict"):
+        import numpy as np
+
+        np.seterr(divide="raise", invalid="raise", over="raise")
     envs: dict[str, Env] = {}
     pops = {}
     data_objs = {}
@@ -692,6 +705,10 @@ def run_session(history: dict, opts: dict | None = None) -> dict:
             events.append(ev)
     finally:
         rg.__exit__(None, None, None)
+    strict = bool(history["env"].get("np_strict"))
+    for ev in events:
+        if ev.get("ref") is not None:
+            ev["ref"]["np_strict"] = strict
     return {"events": events, "line_events": line_events, "rglob_calls": rg.calls, "fingerprints": fps, "fp_final": global_fingerprint()}
 
 
@@ -864,6 +881,7 @@ def _do_compute(op, envs, prepared, history, ev, rg=None) -> int:
         "cms": op["cms"],
         "agg": op.get("agg"),
         "um_fail": bool(op.get("um_fail")),
+        "np_strict": bool(history["env"].get("np_strict")),
     }
     return lines
 
@@ -961,6 +979,7 @@ def _compute_ref(env, history, op, targets):
         "cms": op["cms"],
         "agg": op.get("agg"),
         "um_fail": bool(op.get("um_fail")),
+        "np_strict": bool(history["env"].get("np_strict")),
     }
 
 
@@ -983,6 +1002,7 @@ def run_reference(ref: dict) -> dict:
     from gettsim import set_up_policy_environment
 
     warnings.simplefilter("ignore")
+    _apply_caller_config(bool(ref.get("np_strict")))
     try:
         params, functions = set_up_policy_environment(ref["date"])
     except Exception as e:  # noqa: BLE001
@@ -1006,6 +1026,7 @@ def run_references_batch(date: str, refs: list) -> list:
     from gettsim import set_up_policy_environment
 
     warnings.simplefilter("ignore")
+    _apply_caller_config(bool(refs and refs[0].get("np_strict")))  # the driver batches by (date, configuration)
     try:
         params, functions = set_up_policy_environment(date)
     except Exception as e:  # noqa: BLE001
@@ -1049,6 +1070,13 @@ def _apply_replacements(functions, repl):
         else:
             fa, _ = _replace_in_list(fa, {"variant": variant})
     return fa
+
+
+def _apply_caller_config(strict: bool):
+    if strict:
+        import numpy as np
+
+        np.seterr(divide="raise", invalid="raise", over="raise")
 
 
 def _reference_after_setup(ref: dict, params, functions) -> dict:
